@@ -71,3 +71,12 @@ pub fn relocs_build(rest: &str) -> String {
 	}
 	format!("ok {} flat=[{}]", hex(&out), flat.join(","))
 }
+
+pub fn dispatch(_st: &mut crate::State, fam: &str, rest: &str) -> Option<String> {
+	Some(match fam {
+		"strings" => strings(rest),
+		"relocs_raw" => relocs_raw(rest),
+		"relocs_build" => relocs_build(rest),
+		_ => return None,
+	})
+}
